@@ -82,8 +82,12 @@ def fvop : P String := do
   let xs := allX sp
   let v := v.diffIf (xs.map (fvGet sp ifv) != gets) s!"{comp} getValue model-on-impl-structure≠impl"
   let s : Rat := if minus then -1 else 1
+  -- the one known way of being wrong (minusEqual is a copy of plusEqual) gets its own clause name, so that any OTHER
+  -- wrong answer of minusEqual is still reported while that finding is open
+  let addsAll := minus && (xs.zip gets).all (fun xg => xg.2 == fvGet sp f xg.1 + b.get sp xg.1)
+  let kind := if addsAll then "adds_instead_of_subtracting" else "not_pointwise"
   let v := match firstBad (xs.zip gets) (fun xg => xg.2 == fvGet sp f xg.1 + s * b.get sp xg.1) with
-    | some xg => v.failIf true s!"{comp} not_pointwise at={xg.1} got={ratStr xg.2} want={ratStr (fvGet sp f xg.1 + s * b.get sp xg.1)}"
+    | some xg => v.failIf true s!"{comp} {kind} at={xg.1} got={ratStr xg.2} want={ratStr (fvGet sp f xg.1 + s * b.get sp xg.1)}"
     | none => v
   let v := v.failIf (xs.length != gets.length) s!"{comp} not_pointwise missing_values"
   return v.render
@@ -101,8 +105,10 @@ def fvcz : P String := do
   let xs := allX sp
   let v := v.diffIf (xs.map (fvGet sp ifv) != gets) s!"{comp} getValue model-on-impl-structure≠impl"
   let tol := (r.length : Rat) * AITB.Gen.equalToleranceSmall
+  let addsAll := (xs.zip gets).all (fun xg => decide (absQ (xg.2 - (fvGet sp f xg.1 + fvGet sp r xg.1)) ≤ tol))
+  let kind := if addsAll then "adds_instead_of_subtracting" else "not_pointwise"
   let v := match firstBad (xs.zip gets) (fun xg => decide (absQ (xg.2 - (fvGet sp f xg.1 - fvGet sp r xg.1)) ≤ tol)) with
-    | some xg => v.failIf true s!"{comp} not_pointwise at={xg.1} got={ratStr xg.2} want={ratStr (fvGet sp f xg.1 - fvGet sp r xg.1)} clearZero"
+    | some xg => v.failIf true s!"{comp} {kind} at={xg.1} got={ratStr xg.2} want={ratStr (fvGet sp f xg.1 - fvGet sp r xg.1)} clearZero"
     | none => v
   let v := v.failIf (xs.length != gets.length) s!"{comp} not_pointwise missing_values"
   return v.render
@@ -119,8 +125,10 @@ def fvfv : P String := do
   let xs := allX sp
   let v := v.diffIf (xs.map (fvGet sp ifv) != gets) s!"{comp} getValue model-on-impl-structure≠impl"
   let s : Rat := if minus then -1 else 1
+  let addsAll := minus && (xs.zip gets).all (fun xg => xg.2 == fvGet sp f xg.1 + fvGet sp r xg.1)
+  let kind := if addsAll then "adds_instead_of_subtracting" else "not_pointwise"
   let v := match firstBad (xs.zip gets) (fun xg => xg.2 == fvGet sp f xg.1 + s * fvGet sp r xg.1) with
-    | some xg => v.failIf true s!"{comp} not_pointwise at={xg.1} got={ratStr xg.2} want={ratStr (fvGet sp f xg.1 + s * fvGet sp r xg.1)}"
+    | some xg => v.failIf true s!"{comp} {kind} at={xg.1} got={ratStr xg.2} want={ratStr (fvGet sp f xg.1 + s * fvGet sp r xg.1)}"
     | none => v
   let v := v.failIf (xs.length != gets.length) s!"{comp} not_pointwise missing_values"
   return v.render
